@@ -649,6 +649,9 @@ pub fn check_quads(v: &QuadVal, m: &QuadModel, plan_seed: u64, o: QuadOpts, ctx:
                 ensure!(it.next().is_none(), "{who}: {name} yields an item after the end");
             }
         }
+        if n <= 60_000 {
+            crate::props::c12::check_adapters(&|| v.iter(), &m.q, plan_seed ^ 5, &format!("{who} iter()"), ctx)?;
+        }
     }
     let _ = unreachable_fail;
     Ok(())
